@@ -96,7 +96,7 @@ ADDENDA = {
  "C01": "Also: hand-written accumulation helpers (gru._backprop) accumulate and never overwrite; ops overriding backward() reach the generic loop on every path or serve every variable.",
  "C03": "Also: Tensor.__array_ufunc__ evaluates forwarded ufuncs through getattr(ufunc, method) (outer/reduce/accumulate honoured).",
  "C04": "Also: a wholesale rebuild of a _view_children list maps the same tensor's own children (D15, repaired).",
- "C05": "Also: building the placeholder graph leaves the originals untouched; dtype-kind tests (integer-array index detection of SetItem/GetItem) name abstract scalar classes, never one width (D16, repaired).",
+ "C05": "Also: building the placeholder graph leaves the originals untouched; dtype-kind tests (integer-array index detection of SetItem/GetItem) name abstract scalar classes, never one width (D16, repaired); index classifiers decide from the converted element only, never from its Python type; the routing ops (SetItem, UnView, ApplyMask) and the ufunc where-mask in Operation.backward drop excluded entries by assignment/selection, never by scaling with a 0/1 mask -- 0 * nan = nan leaked non-finite gradients into overwritten / masked-out contents (D28, three sites repaired).",
  "C06": "Also: any copy made of the first contribution keeps the producer's layout (np.copy / order='K').",
  "C07": "Also: before a placeholder graph is built, in every function that builds one (_in_place_op and the .shape setter), the gradient of the target and of the base that owns the memory is nulled (D13/D14, repaired); a stale base is dropped for view and non-view ops alike; the public null_grad() touches view information only for internal callers.",
  "C09": "Also: an op that overrides backward() still passes the guard (super().backward on every path, or its own test); Tensor.backward clears the graph only on its normal continuation (never in finally/except), so a failed back-propagation fails again.",
